@@ -14,6 +14,7 @@ def supportFormulas : Formulas :=
     rtruediv := fun l1 r1 l2 r2 => ((if l1 > (0 : Rat) then some ((if l2 ≥ (0 : Rat) then (l2 / r1) else (l2 / l1))) else none), (if l1 > (0 : Rat) then some ((if r2 ≥ (0 : Rat) then (r2 / l1) else (r2 / r1))) else none)),
     neg := fun l r => (some ((-r)), some ((-l))),
     abs := fun l r => (some ((if r < (0 : Rat) then (-r) else (if l < (0 : Rat) then (0 : Rat) else l))), some ((if r < (0 : Rat) then (-l) else (if l < (0 : Rat) then (rmax (-l) r) else r)))),
+    hypAbs := fun l r => ((if r < (0 : Rat) then (-r) else (if l < (0 : Rat) then (0 : Rat) else l)), (if r < (0 : Rat) then (-l) else (if l < (0 : Rat) then (if (-l) > r then (-l) else r) else r))),
     binOps := [(.add, false, .add), (.add, true, .add), (.sub, false, .sub), (.sub, true, .rsub), (.mul, false, .mul), (.mul, true, .mul), (.truediv, false, .truediv), (.truediv, true, .rtruediv)],
     unOps := [(.neg, .neg), (.abs, .abs)] }
 
